@@ -60,5 +60,18 @@ UNIT = Unit(
                            f"  forall|j: int| 0 <= j < param_types@.len() ==> (#[trigger] param_types@[j]).0 == f.params@[j].0 && param_types@[j].1 == self_inst(hir_ty(f.params@[j].1), for_ty),\n"
                            f"  forall|i: int| 0 <= i < {mt.group(1)} && (forall|j: int| i < j < {mt.group(1)} ==> (#[trigger] f.params@[j]).0 != f.params@[i].0) ==> local_env.bound((#[trigger] f.params@[i]).0) == Some(self_inst(hir_ty(f.params@[i].1), for_ty)),\n"
                            f" decreases param_types.len() - {mt.group(1)},")(re.search(r"while\s+(__fk\d+)", header)))),
+        Adt(file="crates/compiler/src/env.rs", kw="enum", name="FnOrigin", rules=["attrs"]),
+        Adt(file="crates/compiler/src/env.rs", kw="struct", name="FnScheme", rules=["attrs", ("strip", "tast::")]),
+        Fn(file=TL, name="define_function", attrs="#[verifier::loop_isolation(false)]",
+           pre_rewrites=[("func: &hir::Fn", "func: &HirFnDef", 1), ("let name = func.name.clone();", "let name = func.name.vclone(); let ghost __name = name@;", 1),
+                         (re.compile(r"let generics_tast: Vec<tast::TastIdent> = func\s*\.generics\s*\.iter\(\)\s*\.map\(\|g\| tast::TastIdent\(g\.to_ident_name\(\)\)\)\s*\.collect\(\);"), "let generics_tast: Vec<tast::TastIdent> = tparams_of(&func.generics);", 1),
+                         (re.compile(r"\|\(_, (\w+)\)\| \{"), r"|__nt| { let \1 = &__nt.1;", "*"), (".collect::<Vec<_>>();", ".collect();", "*"),
+                         ("tast::Ty::from_hir(env, ", "ty_from_hir(env, ", "*"), (re.compile(r"env\.current_mut\(\)\.value_env\.funcs\.insert\("), "insert_func(env, ", 1),
+                         ("type_params: vec![],", "type_params: Vec::new(),", 1)],
+           rewrites=[(re.compile(r"let mut (__mo\d+) = Vec::new\(\);"), r"let mut \1: Vec<Ty> = Vec::new();", "*")],
+           obligation="the scheme recorded for a function is (declared parameter types, in order) -> (declared result type, unit when none is written)",
+           contract="ensures scheme_declared(*func, final(env).func_scheme(func.name@)),",
+           loop_fn=lambda k, header, kw: (lambda mt: (f"invariant __mi{mt.group(1)} <= func.params.len(), __mo{mt.group(1)}@.len() == __mi{mt.group(1)},\n"
+               f"  forall|j: int| 0 <= j < __mi{mt.group(1)} ==> #[trigger] __mo{mt.group(1)}@[j] == hir_ty(func.params@[j].1),\n decreases func.params.len() - __mi{mt.group(1)},") if mt else None)(re.search(r"__mi(\d+)", header))),
     ],
 )
